@@ -71,7 +71,46 @@ def run(flags, dirs):
         shutil.rmtree(base, ignore_errors=True)
 
 
+NESTED = """library: sel
+cxx_header: sel.hpp
+options:
+%s
+declarations:
+- decl: namespace outer
+  declarations:
+  - decl: namespace inner
+    declarations:
+    - decl: void deep(int a)
+      options:
+        wrap_%s: true
+%s
+"""
+
+
+def check_nested(inp):
+    """a wrapper switched off for the library but on for one declaration in a nested namespace is still produced"""
+    global YAML
+    saved = YAML
+    extra = "        wrap_c: true\n" if inp["enable"] == "fortran" else ""
+    YAML = NESTED % ("%s", inp["enable"], extra)
+    try:
+        files, cf, ff = run(inp["flags"], {})
+    except (RuntimeError, SystemExit):
+        return None
+    finally:
+        YAML = saved
+    key = {"python": "py", "lua": "lua", "fortran": "f", "c": "c"}[inp["enable"]]
+    have = [r for r in files if classify(os.path.basename(r)) == key]
+    text = b" ".join(files[r] for r in have)
+    if not have or b"deep" not in text:
+        return "wrap_%s is on for outer::inner::deep but no %s wrapper for it was written (files: %s)" % (
+            inp["enable"], inp["enable"], sorted(files))
+    return None
+
+
 def check(inp):
+    if inp.get("nested"):
+        return check_nested(inp)
     flags, dirs = inp["flags"], inp.get("dirs", {})
     try:
         files, cf, ff = run(flags, dirs)
@@ -116,3 +155,11 @@ def candidates(seed, around=None):
     yield {"flags": {"c": True, "fortran": True, "python": True, "lua": True},
            "dirs": {"outdir_c_fortran": "cf", "outdir_python": "py", "outdir_lua": "lua"}}
     yield {"flags": {"c": True, "fortran": False, "python": False, "lua": True}, "dirs": {"outdir_lua": "lua", "outdir_python": "py"}}
+    allflags = {"c": True, "fortran": True, "python": True, "lua": True}
+    opts = {"outdir_c_fortran": "cf", "outdir_python": "py", "outdir_lua": "lua"}
+    for r in (1, 2):
+        for sub in itertools.combinations(sorted(opts), r):
+            yield {"flags": allflags, "dirs": dict((k, opts[k]) for k in sub)}
+    yield {"nested": True, "flags": {"c": False, "fortran": False, "python": False, "lua": False}, "enable": "python"}
+    yield {"nested": True, "flags": {"c": False, "fortran": False, "python": False, "lua": False}, "enable": "lua"}
+    yield {"nested": True, "flags": {"c": True, "fortran": False, "python": False, "lua": False}, "enable": "fortran"}
